@@ -40,7 +40,7 @@ RULE = ('engine: every position-tagged stream of length n over a 3-symbol pointe
         '(giant, fixed sizes, single/pair cuts at +-1 of structure boundaries, byte windows, random, empty chunks, '
         'interleaved queries). non-trivial = stream carries a signature or structured header and the schedule has '
         '>= 2 chunks; distinct by (stream digest, schedule digest)')
-REQUIRED_CLAUSES = ['E-region-exactness-backward-pointers', 'R-region-exactness', 'V-verdict-invariance', 'Q-queries-pure', 'E-engine-slice-semantics',
+REQUIRED_CLAUSES = ['I-instance-isolation', 'E-region-exactness-backward-pointers', 'R-region-exactness', 'V-verdict-invariance', 'Q-queries-pure', 'E-engine-slice-semantics',
                     'W-wrapper-verdict-invariance', 'actual-size']
 ASSUMPTIONS = ['ground truth for regions is the presented stream itself (slice semantics)',
                'known findings F1 F3 are attributed by input-only predicates (vlib/known.py, imagegen.vhdx_backward)']
@@ -406,7 +406,39 @@ def eval_stream(ctx, case):
                          known=kn)
 
 
+def eval_isolation(ctx, case):
+    """Two inspectors of one class alive at the same time and fed alternately: each one's verdict is the verdict of
+    its own bytes (what an inspector concludes is a function of the bytes it was shown, not of other instances)."""
+    F = sl.fi()
+    da, _ta = ig.build(case['spec_a'])
+    db, _tb = ig.build(case['spec_b'])
+    cls = F.ALL_FORMATS[case['inspector']]
+    alone_a = sl.feed(cls, da, [], monitor=False)['verdict']
+    alone_b = sl.feed(cls, db, [], monitor=False)['verdict']
+    a, b = cls(), cls()
+    size = case['chunk']
+    raised = {}
+    for off in range(0, max(len(da), len(db)), size):
+        for insp, data, tag in ((a, da, 'a'), (b, db, 'b')):
+            if off < len(data):
+                try:
+                    insp.eat_chunk(data[off:off + size])
+                except BaseException as e:  # noqa
+                    raised.setdefault(tag, type(e).__name__)
+    for insp in (a, b):
+        insp.finish()
+    vb = ('raised', raised['b']) if 'b' in raised else sl.verdict(b)
+    va = ('raised', raised['a']) if 'a' in raised else sl.verdict(a)
+    ctx.case(('isolation', case['inspector'], da, db, size))
+    ctx.clause('I-instance-isolation')
+    kn = known_for_inspector(case['inspector'], da) or known_for_inspector(case['inspector'], db)
+    if va != alone_a or vb != alone_b:
+        ctx.fail('I-instance-isolation', case, {'alone': [alone_a, alone_b], 'interleaved': [va, vb]}, known=kn)
+
+
 def evaluate(ctx, case):
+    if case['kind'] == 'isolation':
+        return eval_isolation(ctx, case)
     if case['kind'] == 'engine':
         eval_engine(ctx, case)
     elif case['kind'] == 'chain':
@@ -524,6 +556,16 @@ def run(ctx):
         data = (b'KDMV' + b'\x01\x01\x01\x01' + body).ljust(2048, b'\n')
         eval_stream(ctx, {'kind': 'stream', 'data': data, 'inspectors': [], 'wrapper': True, 'structured': True,
                           'schedules': [['first-64', [64], [], False], ['first-50', [50], [], False]]})
+    rng_i = ctx.rng('isolation')
+    for i in range(ctx.pick(500, 8000)):
+        fmt = rng_i.choice(ic.FORMATS)
+        sa, sb = ic.wellformed(rng_i, fmt), ic.wellformed(rng_i, fmt)
+        if rng_i.random() < 0.6:
+            d0, t0 = ig.build(sa)
+            sa = ic.mutated(rng_i, sa, len(d0), t0)
+        if ctx.mine(10 ** 8 + i):
+            eval_isolation(ctx, {'kind': 'isolation', 'inspector': ig.INSPECTOR_OF[fmt], 'spec_a': sa, 'spec_b': sb,
+                                 'chunk': rng_i.choice([64, 512, 4096, 1 << 20])})
     rng = ctx.rng('streams')
     nstreams = ctx.pick(900, 8000)
     nsched = ctx.pick(8, 20)
